@@ -214,11 +214,11 @@ pub(crate) mod kani_verif {
             }
         };
     }
-    // @h name=c07_hss_sign_l1 props=C07,C03,C01 tier=thorough kind=proved cfg=w8 timeout=2400 funcs=HssSignature::sign;HssSignature::to_binary_representation;HssSignedPublicKey::new;HssSignedPublicKey::to_binary_representation;LmsPublicKey::to_binary_representation contract="RFC 8554 6.2: Nspk=L-1, (sig_i, pub_{i+1}) = stored pairs in order, message signed by the bottom tree's current leaf with randomizer generate_signature_randomizer(bottom seed/I, q); serialisation order; refuses a second sign; L=1"
+    // @h name=c07_hss_sign_l1 props=C07,C03,C01 tier=extended kind=proved cfg=w8 timeout=2400 funcs=HssSignature::sign;HssSignature::to_binary_representation;HssSignedPublicKey::new;HssSignedPublicKey::to_binary_representation;LmsPublicKey::to_binary_representation contract="RFC 8554 6.2: Nspk=L-1, (sig_i, pub_{i+1}) = stored pairs in order, message signed by the bottom tree's current leaf with randomizer generate_signature_randomizer(bottom seed/I, q); serialisation order; refuses a second sign; L=1"
     h!(c07_hss_sign_l1, 1);
-    // @h name=c07_hss_sign_l2 props=C07,C03,C01 tier=thorough kind=proved cfg=w8 timeout=2400 funcs=HssSignature::sign;HssSignature::to_binary_representation contract="same, L=2"
+    // @h name=c07_hss_sign_l2 props=C07,C03,C01 tier=extended kind=proved cfg=w8 timeout=2400 funcs=HssSignature::sign;HssSignature::to_binary_representation contract="same, L=2"
     h!(c07_hss_sign_l2, 2);
-    // @h name=c07_hss_sign_l3 props=C07,C03,C01 tier=thorough kind=proved cfg=w8 timeout=3600 funcs=HssSignature::sign;HssSignature::to_binary_representation contract="same, L=3"
+    // @h name=c07_hss_sign_l3 props=C07,C03,C01 tier=extended kind=proved cfg=w8 timeout=3600 funcs=HssSignature::sign;HssSignature::to_binary_representation contract="same, L=3"
     h!(c07_hss_sign_l3, 3);
     // @h name=c07_hss_sign_l8 props=C07,C03,C01 tier=extended kind=proved cfg=w8 timeout=7200 funcs=HssSignature::sign;HssSignature::to_binary_representation contract="same, L=8 (maximum level count)"
     h!(c07_hss_sign_l8, 8);
